@@ -456,6 +456,16 @@ def wireId (multicast : Bool) (id : Nat) : Nat := if Gen.Reply.out_id_zero multi
 def wireClass (class_ : Nat) (unique multicast : Bool) : Nat :=
   if Gen.Reply.out_class_flush unique multicast then Gen.Reply.out_class_with_flush class_ else Gen.Reply.out_class_plain class_
 
+/-- `DNSIncoming._read_questions`: the value of `_has_qu_question` after reading questions with these QU bits -/
+def hasQuFlag (qus : List Bool) : Bool :=
+  qus.foldl (fun flag u => if Gen.Reply.in_qu_flag_test u then Gen.Reply.in_qu_flag_value u else flag) false
+
+/-- the `multicast` argument `construct_outgoing_unicast_answers` gives to `DNSOutgoing` -/
+def ucastReplyMulticast (id : Nat) (ucastSource : Bool) : Bool := Gen.Reply.ans_unicast_multicast_arg id ucastSource
+
+/-- the `multicast` argument `construct_outgoing_multicast_answers` gives to `DNSOutgoing` -/
+def mcastReplyMulticast : Bool := Gen.Reply.ans_multicast_multicast_arg
+
 /-- flags of both reply constructors -/
 def replyFlags : Nat := Gen.flagsQrResponseAa
 
